@@ -286,7 +286,8 @@ class DULServiceProvider(threading.Thread):
             pdu_type, event = PDU_TYPES[six.indexbytes(raw_pdu, 0)]
             self.primitive = pdu_type.decode(raw_pdu)
             self.event.append(event)
-        except KeyError:
+        except Exception:  # pylint: disable=broad-except
+            # unknown PDU type or a PDU that cannot be decoded
             self.event.append(fsm.Events.EVT_19)
         return True
 
